@@ -24,7 +24,11 @@ lock = threading.Lock()
 
 def one(n: str) -> None:
     d = os.path.join(SEEDED, n)
-    meta = json.load(open(os.path.join(d, "meta.json")))
+    try:
+        meta = json.load(open(os.path.join(d, "meta.json")))
+    except Exception as e:  # noqa: BLE001  (being rewritten by an evaluation that runs at the same time)
+        print(n, "skipped:", repr(e)[:80], flush=True)
+        return
     check = meta.get("check", {}).get("cmd", "").split()[1] if meta.get("check", {}).get("cmd", "").startswith("./check") else meta["property"]
     before = open(os.path.join(d, "eval.json")).read() if os.path.exists(os.path.join(d, "eval.json")) else None
     t0 = time.time()
